@@ -53,7 +53,7 @@ RULE = (
     "Any, NewTypes, bare typing aliases) under every constructor (Optional, Union, |, old/new generics, tuple forms, Unpack/star, "
     "Literal, type[], Annotated, Final/ClassVar, forward-reference strings), a seeded sample of depth 2, then seeded random depth <= 3; "
     "expressions typing itself rejects (eval raises) are skipped and counted; def headers: every kind sequence up to 3 parameters with "
-    "small annotation/default choices, then seeded random ones with generated annotations, __dunder names and "
+    "small annotation/default choices, then seeded random ones with generated annotations, __dunder parameter names and "
     "`from __future__ import annotations`; per header a fixed family of calls. Non-trivial = the expression has a constructor / the header "
     "has a parameter; distinct by source text. Callable/TypedDict/Protocol/TypeVar/ParamSpec forms are compared route against route on the "
     "implementation only (stream extra)."
@@ -970,18 +970,6 @@ def cmp_sig(iv, mv):
     return "order" if ca == cb else "diff"
 
 
-def _nk(x):
-    """names, kinds, default presence of a signature string"""
-    ps = parse_sig(x)
-    return x if ps is None else [(n, k, d != "-") for n, k, d, _ in ps[0]]
-
-
-def _av(x):
-    """annotation values (canonical) of a signature string"""
-    ps = parse_sig(x)
-    return x if ps is None else ([(n, canon(t) if t else t) for n, _, _, t in ps[0]], canon(ps[1]) if ps[1] else ps[1])
-
-
 def canon_sig(s):
     """names, kinds, default presence, canonical annotations; unannotated representations collapsed."""
     if " -> " not in s:
@@ -1209,15 +1197,8 @@ def eval_sig(ctx, headers, with_model=True):
                     ctx.tag("sig_typing_cache_order")  # see eval_ann: typing's `==`-keyed subscription cache
                 elif c != "eq":
                     conforms = False
-                    # inside a class no theorem speaks (see eval_ann). A header may lie in several classes, each about one aspect:
-                    # a difference from the model in an aspect is excused when that aspect's class is present and the
-                    # implementation's two routes agree on the aspect (the defect has been repaired)
-                    classes = m["D"].split(",") if m["D"] != "-" else []
-                    nk_same, av_same = _nk(iv) == _nk(mv), _av(iv) == _av(mv)
-                    ex_nk = nk_same or ("dunderPosOnly" in classes and _nk(idef) == _nk(iinsp))
-                    ex_av = av_same or (any(c_ != "dunderPosOnly" for c_ in classes) and _av(idef) == _av(iinsp))
-                    if classes and ((not sig_bad and not call_bad) or (not (nk_same and av_same) and ex_nk and ex_av)):
-                        ctx.tag("sig_repaired_in_class")
+                    if dcls is not None and not sig_bad and not call_bad:
+                        ctx.tag("sig_repaired_in_" + dcls)  # see eval_ann: inside a class only differ-and-fail is new
                     else:
                         ctx.disagree(stream, case, iv, mv)
             if res_inspect[i] is not None and supported:
@@ -1233,20 +1214,6 @@ def eval_sig(ctx, headers, with_model=True):
             ctx.sample({"def": defsrc[i], "def_route": idef, "inspect_route": iinsp, "model": m})
         if not supported:
             continue
-        if (sig_bad or call_bad) and m is not None and m["D"] != "-":
-            # a header may lie in several classes: name the one that explains the failure, and judge conformance to the model on
-            # the aspect that class is about (names / kinds for dunderPosOnly, annotation values for the annotation classes)
-            nk, av = _nk, _av
-            classes = m["D"].split(",")
-            mdef, minsp = strip_errs(m["def"]), strip_errs(m["insp"])
-            if "dunderPosOnly" in classes and nk(idef) != nk(iinsp):
-                dcls = "dunderPosOnly"
-                conforms = nk(idef) == nk(mdef) and nk(iinsp) == nk(minsp)
-            else:
-                rest = [c for c in classes if c != "dunderPosOnly"]
-                if rest:
-                    dcls = rest[0]
-                    conforms = av(idef) == av(mdef) and av(iinsp) == av(minsp)
         if sig_bad:
             ctx.candidate(case, "signature from the def node differs from the signature from the function object: def=%s inspect=%s"
                           % (idef, iinsp), cls=dcls, conforms=conforms, stream="sig")
